@@ -152,6 +152,7 @@ class RSocketClient(RSocketBase):
                     self._connecting = True
                     self._connect_request_event.clear()
                     await self._close(reconnect=True)
+                    self.stop_all_streams()
                     self._next_transport = create_future()
                     await self.connect()
                 finally:
